@@ -1025,7 +1025,9 @@ class SyncObj(object):
 
                 currentNodeIdx = nextNodeIdx - 1
                 if reset:
-                    self.__raftNextIndex[node] = nextNodeIdx
+                    # Every append_entries of a burst draws its own rejection; the later ones
+                    # (unknown index) must not undo the step back asked for by the first.
+                    self.__raftNextIndex[node] = min(nextNodeIdx, self.__raftNextIndex.get(node, nextNodeIdx))
                 if success:
                     if self.__raftMatchIndex[node] < currentNodeIdx:
                         self.__raftMatchIndex[node] = currentNodeIdx
